@@ -2,7 +2,10 @@ package c03
 
 import (
 	"fmt"
+	"os"
+	"path/filepath"
 	"strings"
+	"time"
 
 	"verif/harness/internal/ev"
 	"verif/harness/internal/fx"
@@ -309,5 +312,133 @@ func aliasedNameLane(c *ev.Ctx, sidecar bool) {
 		check("delete-objects:"+name, alice.Do(&s3c.Req{Method: "POST", Path: "/" + b, Query: "delete=", Body: body, Header: s3c.H{{"Content-MD5", s3c.MD5B64(body)}}}))
 		check("delete:"+name, alice.Do(&s3c.Req{Method: "DELETE", Path: raw, CanonPath: raw}))
 		check("put:"+name, alice.Do(&s3c.Req{Method: "PUT", Path: raw, CanonPath: raw, Body: []byte("overwritten by alice")}))
+	}
+}
+
+// Unclaimed-directory lane: a directory below the gateway root that carries no ACL attribute - one that was there
+// before the gateway was pointed at it, or one a CreateBucket left behind when the process died between the mkdir
+// and the ACL write - is served as a bucket of the root account with no grantees. Nothing grants a non-admin account
+// anything on it, so whatever such an account sends (a CreateBucket of that name included, by an account whose role
+// may create buckets) must leave it refused: no object disclosed, nothing changed, the owner still root.
+func unclaimedDirLane(c *ev.Ctx, sidecar bool, how string) {
+	store := "xattr"
+	if sidecar {
+		store = "sidecar"
+	}
+	id := "u/" + how + "/" + store
+	if !c.Want(id) {
+		return
+	}
+	cfg := gw.Config{Sidecar: sidecar}
+	if how == "interrupted-create" {
+		cfg.Env = []string{"VERIF_HOOK_CRASH=mkbucket.afterMkdir#1"}
+	}
+	env, err := fx.New("c03u", cfg, 1)
+	if err != nil {
+		c.Inconclusive("gateway start (unclaimed-directory lane): " + err.Error())
+		return
+	}
+	defer env.Close()
+	for _, u := range [][2]string{{"alice", "user"}, {"bob", "userplus"}} {
+		if r := env.CreateUser(u[0], u[0]+"-secret-1", u[1], 0, 0); r.Status != 201 {
+			c.Inconclusive("create user: " + r.String())
+			return
+		}
+	}
+	const b = "orphan"
+	const secret = "ROOTS-DATA-orphan-51c9"
+	switch how {
+	case "preexisting":
+		if err := os.MkdirAll(filepath.Join(env.Store.Root, b, "legacy"), 0o755); err != nil {
+			c.Inconclusive(err.Error())
+			return
+		}
+		os.WriteFile(filepath.Join(env.Store.Root, b, "legacy", "file.txt"), []byte(secret), 0o644)
+	case "interrupted-create":
+		env.Client(0).CreateBucket(b) // dies after the mkdir
+		if !env.GWs[0].WaitExit(10 * time.Second) {
+			c.Inconclusive("the gateway did not die at mkbucket.afterMkdir")
+			return
+		}
+		if _, err := os.Stat(filepath.Join(env.Store.Root, b)); err != nil {
+			c.Inconclusive("no bucket directory after the interrupted create")
+			return
+		}
+		env.GWs[0].Cfg.Env = nil
+		if err := env.Restart(0); err != nil {
+			c.Inconclusive("restart: " + err.Error())
+			return
+		}
+	}
+	root := env.Client(0)
+	alice, bob := root.With("alice", "alice-secret-1"), root.With("bob", "bob-secret-1")
+	if p := root.PutObject(b, "roots-object", []byte(secret)); !p.OK() {
+		c.Observe("unclaimed directory (" + how + ") is not usable by root: " + p.String())
+		return
+	}
+	if l := root.ListBuckets(); !strings.Contains(string(l.Body), "<Name>"+b+"</Name>") {
+		c.Observe("unclaimed directory (" + how + ") is not listed for root")
+	}
+	det := func(extra map[string]any) map[string]any {
+		m := map[string]any{"bucket": "directory without an ACL attribute (" + how + "), served as a bucket of root with no grantees", "store": store}
+		for k, v := range extra {
+			m[k] = v
+		}
+		return m
+	}
+	type attempt struct {
+		name string
+		run  func(cl *s3c.Client) *s3c.Resp
+	}
+	attempts := []attempt{
+		{"create-bucket", func(cl *s3c.Client) *s3c.Resp { return cl.CreateBucket(b) }},
+		{"create-bucket-with-acl", func(cl *s3c.Client) *s3c.Resp {
+			return cl.CreateBucket(b, "x-amz-object-ownership", "BucketOwnerPreferred", "x-amz-acl", "public-read-write")
+		}},
+		{"get-object", func(cl *s3c.Client) *s3c.Resp { return cl.GetObject(b, "roots-object") }},
+		{"head-object", func(cl *s3c.Client) *s3c.Resp { return cl.HeadObject(b, "roots-object") }},
+		{"list-objects", func(cl *s3c.Client) *s3c.Resp {
+			return cl.Do(&s3c.Req{Method: "GET", Path: "/" + b, Query: "list-type=2"})
+		}},
+		{"put-object", func(cl *s3c.Client) *s3c.Resp { return cl.PutObject(b, "intruder-"+cl.AK, []byte("x")) }},
+		{"overwrite-object", func(cl *s3c.Client) *s3c.Resp { return cl.PutObject(b, "roots-object", []byte("replaced")) }},
+		{"get-bucket-acl", func(cl *s3c.Client) *s3c.Resp { return cl.Sub("GET", b, "", "acl=", nil) }},
+		{"put-bucket-acl", func(cl *s3c.Client) *s3c.Resp {
+			return cl.Sub("PUT", b, "", "acl=", nil, "X-Amz-Grant-Full-Control", cl.AK)
+		}},
+		{"put-bucket-policy", func(cl *s3c.Client) *s3c.Resp {
+			return cl.Sub("PUT", b, "", "policy=", []byte(fmt.Sprintf(`{"Version":"2012-10-17","Statement":[{"Effect":"Allow","Principal":"*","Action":"s3:*","Resource":"arn:aws:s3:::%s/*"}]}`, b)))
+		}},
+		{"delete-object", func(cl *s3c.Client) *s3c.Resp { return cl.DeleteObject(b, "roots-object") }},
+		{"delete-bucket", func(cl *s3c.Client) *s3c.Resp { return cl.DeleteBucket(b) }},
+	}
+	for round := 0; round < 2; round++ { // the second round runs after every create / acl / policy attempt was made
+		for _, cl := range []*s3c.Client{bob, alice} {
+			for _, a := range attempts {
+				r := a.run(cl)
+				c.Eval(1)
+				if r.Err != nil {
+					c.Inconclusive("transport error in unclaimed-directory lane")
+					return
+				}
+				what := fmt.Sprintf("unclaimed-dir:%s:%s", how, a.name)
+				switch {
+				case r.Status < 300:
+					c.Violation(what+":allowed-without-any-grant["+store+"]", id, det(map[string]any{"caller": cl.AK, "round": round, "answer": r.String(), "body_head": clipS(string(r.Body), 200)}))
+				case strings.Contains(string(r.Body), secret):
+					c.Violation(what+":data-disclosed["+store+"]", id, det(map[string]any{"caller": cl.AK, "answer": r.String()}))
+				default:
+					c.Distinct("unclaimed|" + how + "|" + a.name + "|" + store)
+				}
+			}
+		}
+	}
+	if g := root.GetObject(b, "roots-object"); !g.OK() || string(g.Body) != secret {
+		c.Violation("unclaimed-dir:"+how+":roots-object-changed["+store+"]", id, det(map[string]any{"get": g.String(), "body": clipS(string(g.Body), 100)}))
+	}
+	for _, cl := range []*s3c.Client{bob, alice} {
+		if l := cl.ListBuckets(); l.OK() && strings.Contains(string(l.Body), "<Name>"+b+"</Name>") {
+			c.Violation("unclaimed-dir:"+how+":listed-as-a-bucket-of-the-caller["+store+"]", id, det(map[string]any{"caller": cl.AK, "list_buckets": clipS(string(l.Body), 400)}))
+		}
 	}
 }
